@@ -254,11 +254,26 @@ SUBCALLS = {
     "_report_glob_violations": "r_globs",
 }
 
+# Sub-calls that take one boolean keyword argument besides (workflow, reporter): the generated
+# caller receives the callee as a function of that boolean.  name -> (keyword, default).
+SUBCALL_KW = {"_report_glob_violations": ("errors_only", "False")}
+
+# Boolean parameters of the translated functions (usable in guards).
+BOOL_PARAMS = {"_report_glob_violations": ["errors_only"]}
+
 PARAMS = {
-    "report_unbuilt": "(nfailed : N) (draining : bool) (r_pending r_targets r_globs : N)",
+    "report_unbuilt": "(nfailed : N) (draining : bool) (r_pending r_targets : N) (r_globs : bool -> N)",
     "_report_pending_steps": "(ntotal : N)",
     "_report_missing_targets": "(n_missing_targets n_missing_target_dirs : N)",
-    "_report_glob_violations": "(n_glob_warnings n_glob_errors : N)",
+    "_report_glob_violations": "(errors_only : bool) (n_glob_warnings n_glob_errors : N)",
+}
+
+# Expected Python signatures (ast.unparse of the arguments).
+SIGNATURES = {
+    "report_unbuilt": "workflow: Workflow, scheduler: Scheduler, reporter: ReporterClient",
+    "_report_pending_steps": "workflow: Workflow, reporter: ReporterClient",
+    "_report_missing_targets": "workflow: Workflow, reporter: ReporterClient",
+    "_report_glob_violations": "workflow: Workflow, reporter: ReporterClient, errors_only: bool=False",
 }
 
 
@@ -288,14 +303,40 @@ class _RcTranslator:
             return f"rc_{m.group(1)}"
         if isinstance(e, ast.Await) and isinstance(e.value, ast.Call) and isinstance(e.value.func, ast.Name) \
                 and e.value.func.id in SUBCALLS:
-            if ast.unparse(e.value) != f"{e.value.func.id}(workflow, reporter)":
-                raise TranslatorError(f"{self.fname}: call {ast.unparse(e.value)} has unexpected arguments")
-            return SUBCALLS[e.value.func.id]
+            call, callee = e.value, e.value.func.id
+            if [ast.unparse(a) for a in call.args] != ["workflow", "reporter"]:
+                raise TranslatorError(f"{self.fname}: call {ast.unparse(call)} has unexpected arguments")
+            if callee not in SUBCALL_KW:
+                if call.keywords:
+                    raise TranslatorError(f"{self.fname}: call {ast.unparse(call)} has unexpected keywords")
+                return SUBCALLS[callee]
+            kw, default = SUBCALL_KW[callee]
+            if len(call.keywords) > 1 or any(k.arg != kw for k in call.keywords):
+                raise TranslatorError(f"{self.fname}: call {ast.unparse(call)} has unexpected keywords")
+            arg = ast.unparse(call.keywords[0].value) if call.keywords else default
+            return f"({SUBCALLS[callee]} {self.bool_expr(arg)})"
         if allow_var and src == RC_VAR:
             return "rc"
         raise TranslatorError(f"{self.fname}: return-code expression not recognised: {src}")
 
+    BOOL_EXPRS = {"True": "true", "False": "false",
+                  "returncode != ReturnCode(0)": "(negb (rc =? 0))",
+                  "returncode == ReturnCode(0)": "(rc =? 0)"}
+
+    def bool_expr(self, src):
+        if src not in self.BOOL_EXPRS:
+            raise TranslatorError(f"{self.fname}: boolean argument not recognised: {src}")
+        return self.BOOL_EXPRS[src]
+
     def cond(self, test):
+        if isinstance(test, ast.BoolOp):
+            op = " && " if isinstance(test.op, ast.And) else " || "
+            return "(" + op.join(self.cond(v) for v in test.values) + ")"
+        if isinstance(test, ast.UnaryOp) and isinstance(test.op, ast.Not):
+            return f"(negb {self.cond(test.operand)})"
+        if isinstance(test, ast.Name) and test.id in BOOL_PARAMS.get(self.fname, []):
+            self.conds.append(test.id)
+            return test.id
         src = ast.unparse(test)
         if src not in CONDS:
             raise TranslatorError(f"{self.fname}: guard not recognised: {src}")
@@ -379,6 +420,8 @@ def translate_rc_function(tree, fname, rc_names):
     fn = find_function(tree, fname)
     if not isinstance(fn, ast.AsyncFunctionDef):
         raise TranslatorError(f"{fname} is no longer async")
+    if ast.unparse(fn.args) != SIGNATURES[fname]:
+        raise TranslatorError(f"{fname}: signature changed: {ast.unparse(fn.args)}")
     tr = _RcTranslator(fname, rc_names)
     body = tr.block(body_without_docstring(fn), None)
     for name, (_, param, _) in INPUT_DEFS[fname].items():
